@@ -1848,14 +1848,9 @@ def tier_b_cases(ck):
         cs = [c for c in fam_flagged('fam_sub', 'eq', mode='bsub', names=[n for n in flaggable if BK[n]['persub']], cross=False,
                                      dict_form=False, mstr=False) if c['meta']['a'] == seed % 3]
         out += group_merge(cs, 'sub-flag', lambda c: (tuple(c['meta']['subset']), c['meta']['a']))
-    bt = list(fam_buildtype_top_flag(pm_max=1 if ck.thorough else 0))
-    if not ck.thorough:
-        bt = [c for c in bt if c['meta']['a'] == seed % 3]
-    out += bt
-    bc = list(fam_buildtype_configure(setup_states=None if ck.thorough else [[]]))
-    if not ck.thorough:
-        bc = [c for c in bc if c['meta']['a'] == seed % 3]
-    out += bc
+    # (tier A runs all three assignments and, in the thorough tier, every default_options / machine-file state)
+    out += [c for c in fam_buildtype_top_flag(pm_max=1 if ck.thorough else 0) if c['meta']['a'] == seed % 3]
+    out += [c for c in fam_buildtype_configure(setup_states=None if ck.thorough else [[]]) if c['meta']['a'] == seed % 3]
     out += list(fam_conf_flag(bases=None if ck.thorough else [['C']]))
     for c in out:
         c['compare_a'] = not c['scn']['langs']
